@@ -66,12 +66,18 @@ pub enum ModelEvaluatorError {
   ReadLockFailed(String),
   #[error("write lock failed with reason '{0}'")]
   WriteLockFailed(String),
+  #[error("decision table rule has {0} input and {1} output entries, expected {2} and {3}")]
+  InvalidNumberOfRuleEntries(usize, usize, usize, usize),
 }
 
 impl From<ModelEvaluatorError> for DmntkError {
   fn from(e: ModelEvaluatorError) -> Self {
     DmntkError::new("ModelEvaluatorError", &e.to_string())
   }
+}
+
+pub fn err_invalid_number_of_rule_entries(inputs: usize, outputs: usize, expected_inputs: usize, expected_outputs: usize) -> DmntkError {
+  ModelEvaluatorError::InvalidNumberOfRuleEntries(inputs, outputs, expected_inputs, expected_outputs).into()
 }
 
 pub fn err_business_knowledge_model_with_reference_not_found(reference: &str) -> DmntkError {
